@@ -21,10 +21,11 @@ def _binding(data: bytes) -> t.Optional[tuple]:
     try:
         b = DPAPINGBlob.unpack(data)
         k = b.key_identifier
-        m = re.fullmatch(r"S-(\d+)-(\d+)((?:-\d+)+)", str(b.protection_descriptor.value))
+        m = re.fullmatch(r"(.)-(\d+)-(\d+)((?:-\d+)+)", str(b.protection_descriptor.value), re.S)
         if not m:
             return None
-        sid = (int(m.group(1)), int(m.group(2)), tuple(int(x) for x in m.group(3)[1:].split("-")))
+        # the numbers as integers (a leading zero is not a different SID) and the literal first character
+        sid = (m.group(1), int(m.group(2)), int(m.group(3)), tuple(int(x) for x in m.group(4)[1:].split("-")))
         ki = bytes(k.key_info)
         if not k.is_public_key:
             kb: t.Any = ki                   # the key-identifier nonce is the KDF context
